@@ -108,7 +108,15 @@ func genC06(rng *hx.Rng, tier string, w *hx.Writer) error {
 				} else if _, err := precompile(6, append(append([]byte{}, sig...), make([]byte, 64)...)); err != nil {
 					oracle = hx.Fail("sig-not-canonical", "the EVM rejects the emitted signature as a G1 point")
 				}
-				w.Put(hx.Case{Entry: "evm", Op: 3, Args: hx.L(hx.Z(x), hx.Z(h)), Impl: hx.B(sig), Oracle: oracle, Tags: []string{"emit-sig", "nt"}})
+				xx, mmsg := x, msg
+				w.Put(hx.Case{Entry: "evm", Op: 3, Args: hx.L(hx.Z(x), hx.Z(h)), Impl: hx.B(sig), Oracle: oracle, Tags: []string{"emit-sig", "nt"},
+					Re: func() string {
+						sg, err := bls.Sign(Bn, Sc(Bn.G2(), xx, q), append([]byte{}, mmsg...))
+						if err != nil {
+							return hx.E
+						}
+						return hx.B(sg)
+					}})
 			}
 			// the valid signature and its mutations
 			type mut struct {
@@ -149,17 +157,19 @@ func genC06(rng *hx.Rng, tier string, w *hx.Writer) error {
 			for _, m := range muts {
 				Xm := Pt(Bn.G2(), m.key, q)
 				hm := keccakInt(m.msg)
-				lib := hx.Catch(func() string {
-					if err := bls.Verify(Bn, Xm, m.msg, append([]byte{}, m.sig...)); err != nil {
+				mm := m
+				verifyOnce := func() string {
+					if err := bls.Verify(Bn, Pt(Bn.G2(), mm.key, q), append([]byte{}, mm.msg...), append([]byte{}, mm.sig...)); err != nil {
 						// distinguish "does not parse" from "parses, equation false"
 						p := Bn.G1().Point()
-						if p.UnmarshalBinary(append([]byte{}, m.sig...)) != nil {
+						if p.UnmarshalBinary(append([]byte{}, mm.sig...)) != nil {
 							return hx.E
 						}
 						return "z0"
 					}
 					return "z1"
-				})
+				}
+				lib := hx.Catch(verifyOnce)
 				oracle := "ok"
 				if lib == hx.P {
 					oracle = hx.Fail("verify-panic", "bls.Verify panicked: "+hx.LastPanic)
@@ -186,7 +196,7 @@ func genC06(rng *hx.Rng, tier string, w *hx.Writer) error {
 					oracle = hx.Fail("valid-signature-rejected", "a signature made by bls.Sign does not verify")
 				}
 				w.Put(hx.Case{Entry: "evm", Op: 1, Args: hx.L(hx.Z(m.key), hx.Z(hm), hx.B(m.sig)), Impl: lib, Oracle: oracle,
-					Tags: []string{"verify-" + m.name, "nt"}})
+					Tags: []string{"verify-" + m.name, "nt"}, Re: verifyOnce})
 			}
 		}
 	}
